@@ -45,11 +45,16 @@ func VerifC19Step() {
 		verifAssert(m[k] == old, "rejected-leaves-register")
 	}
 	verifAssert(m[ko] == oldOther, "other-names-untouched")
-	// hash object reset: hashing again gives the same result
-	verifAssert(h.Sum64() == fnv.New64a().Sum64(), "shared-hash-reset")
-	// lock released
-	lock.Lock()
-	lock.Unlock()
+	// no state leaks from this call into the next one (e.g. a shared hasher that was not reset): a second call
+	// for the other name still sees exactly its own register
+	ts2 := verifUint32("ts2")
+	err2 := Ordered(other, ts2)
+	if ts2 > oldOther {
+		verifAssert(err2 == nil, "next-call-other-name-newer-accepted")
+	} else {
+		verifAssert(err2 != nil, "next-call-other-name-not-newer-rejected")
+	}
+	// (the lock is released on every path: the second call above would deadlock otherwise)
 	verifCover("end")
 }
 
